@@ -55,6 +55,7 @@ class FnSpec:
         self.drops = []       # (start_regex, end_regex): statements removed (prologue the verifier cannot reach)
         self.signature = None  # replacement signature (free variables of the kept body bound as parameters)
         self.truncate = None  # (regex, tail): everything from the line of the first match to the end of the body is dropped, `tail` closes the fn
+        self.flags = []  # (NAME, regex): `let ghost NAME: bool` at body start, true iff the regex matches the function's (comment-masked) source
         self.covered_elsewhere = False  # its obligation is registered by the unit that owns the included file
         self.closure_of = None  # (outer fn path): extract `let <name> = |params| -> Ret { body };` from inside it as a fn
 
@@ -169,6 +170,11 @@ def parse_spec(path):
                 if not m2:
                     raise SpecError("bad @truncate_at line: %s" % raw)
                 cur_fn.truncate = (m2.group(1), m2.group(2))
+            elif kw == "@flag":
+                flush(); m2 = re.match(r"(\w+)\s+/(.*)/\s*$", rest)
+                if not m2:
+                    raise SpecError("bad @flag line: %s" % raw)
+                cur_fn.flags.append((m2.group(1), m2.group(2)))
             elif kw == "@signature":
                 flush(); cur_fn.signature = rest
             elif kw == "@header":
@@ -486,6 +492,7 @@ def extract_fn(src, msk, fs, log):
     text = re.sub(r"(?m)^\s*///.*\n", "", text)
     text = re.sub(r"(?m)^\s*#\[(inline|allow|must_use)[^\]]*\]\s*\n", "", text)
     rlog = list(pre_log)
+    flag_vals = [(nm, bool(re.search(rgx, L.mask(text)))) for nm, rgx in fs.flags]
     for nm, f in GENERIC:
         text, c = f(text)
         if c:
@@ -552,6 +559,9 @@ def extract_fn(src, msk, fs, log):
     # `where` clauses etc. not expected
     body_close = L.match_brace(msk2, body_open)
     ins = []  # (pos, text)
+    for nm, val in flag_vals:
+        ins.append((body_open + 1, "\n        let ghost %s: bool = %s;" % (nm, "true" if val else "false")))
+        rlog.append("%s: syntactic flag %s = %s (does the function text match /%s/)" % (fs.name, nm, val, dict(fs.flags)[nm]))
     lps = L.loops(msk2, body_open, body_close)
     for n, inv in fs.loops.items():
         if n > len(lps):
